@@ -269,7 +269,27 @@ def segments_of(fn, w):
         raise Top("expected exactly one by-value parameter")
     # straight-line statements: (target_local, expr, node, uses)
     stmts = []
+    # `for _ in 0..N { straight-line assignments }` with literal bounds (at most 16 rounds, the loop variable not used) is the
+    # same statements written N times: a hand-unrolled chain and its loop form are the same function
+    flat = []
     for st in body["stmts"]:
+        if st["k"] == "Match" and st.get("src") == "ForLoopDesugar":
+            from .rulelib import for_loops, range_of
+            fl = [f for f in for_loops(fn) if f["match"] is st]
+            rg = range_of(fl[0]["iter"]) if fl else None
+            if rg is not None and strip(rg[0])["k"] == "Lit" and strip(rg[1])["k"] == "Lit" and fl[0]["body"]["k"] == "Block" and "expr" not in fl[0]["body"]:
+                try:
+                    lo_, hi_ = int(strip(rg[0])["v"]), int(strip(rg[1])["v"]) + rg[2]
+                except ValueError:
+                    lo_, hi_ = 0, -1
+                pat_ = fl[0]["pat"]
+                used = pat_.get("k") == "Bind" and any(x["k"] == "Path" and x["res"].get("local") == pat_["id"] for x in hirq.walk(fl[0]["body"]))
+                if 0 <= hi_ - lo_ <= 16 and not used and not any(x["k"] in ("Break", "Continue", "Ret", "Loop") for x in hirq.walk(fl[0]["body"])):
+                    for _r in range(hi_ - lo_):
+                        flat.extend(fl[0]["body"]["stmts"])
+                    continue
+        flat.append(st)
+    for st in flat:
         if hirq.in_log_macro(st):
             continue
         if st["k"] == "Let" and st["pat"]["k"] == "Bind" and "init" in st:
